@@ -40,6 +40,7 @@ type Cell struct {
 	A     Op   `json:"a"`
 	B     Op   `json:"b"`
 	Cross bool `json:"cross"` // B on a second connection
+	Racy  bool `json:"racy"`  // the two fids are created by walks that return from the backend together
 }
 
 // Result of a cell.
@@ -99,10 +100,10 @@ func newSession(t *wirecodec.Table, srv *p9.Server) (*session, error) {
 }
 
 // prepare creates the fid an op needs (fid base+0 on its node) and returns the request to send later.
-func prepare(s *session, op Op, base int) (string, wirecodec.Values, error) {
+func prepare(s *session, op Op, base int, walked bool) (string, wirecodec.Values, error) {
 	fid := base
 	names := nodePath[op.N]
-	if op.P != "attach" {
+	if op.P != "attach" && !walked {
 		if _, err := s.call("Twalk", wirecodec.Values{"fid": 1, "newfid": fid, "names": names}); err != nil {
 			return "", nil, err
 		}
@@ -183,12 +184,74 @@ func runCell(t *wirecodec.Table, c Cell, wait time.Duration, evlog *[]map[string
 			return res
 		}
 	}
-	aName, aVals, err := prepare(s1, c.A, 10)
+	if c.Racy {
+		// both setup walks are held at their first walk-time GetAttr and released together
+		if len(nodePath[c.A.N]) > 1 {
+			// intermediate components exist in the tree already; the race is for the last one
+			if _, err := s1.call("Twalk", wirecodec.Values{"fid": 1, "newfid": 9, "names": nodePath[c.A.N][:1]}); err != nil {
+				res.Err = "racy setup: " + err.Error()
+				return res
+			}
+		}
+		seen := 0
+		auto.SetGate(func(call *puppet.Call) bool {
+			if call.K != "GetAttr" {
+				return false
+			}
+			seen++
+			return seen <= 2
+		})
+		s1.tag++
+		t1 := s1.tag
+		s1.raw.Send("Twalk", t1, wirecodec.Values{"fid": 1, "newfid": 10, "names": nodePath[c.A.N]})
+		sB.tag++
+		t2 := sB.tag
+		sB.raw.Send("Twalk", t2, wirecodec.Values{"fid": 1, "newfid": 20, "names": nodePath[c.B.N]})
+		deadline := time.Now().Add(3 * time.Second)
+		for len(auto.Held()) < 2 && time.Now().Before(deadline) {
+			time.Sleep(200 * time.Microsecond)
+		}
+		if len(auto.Held()) < 2 {
+			res.Err = "racy setup: the two walks did not meet"
+			return res
+		}
+		auto.SetGate(nil)
+		auto.ReleaseTogether()
+	drain:
+		for {
+			select {
+			case <-auto.Notify:
+			default:
+				break drain
+			}
+		}
+		for _, x := range []struct {
+			s *session
+			t uint16
+		}{{s1, t1}, {sB, t2}} {
+			for {
+				b, ok, to := x.s.raw.FR.Next(3 * time.Second)
+				if to || !ok {
+					res.Err = "racy setup: no Rwalk"
+					return res
+				}
+				f, err := t.Decode(b)
+				if err != nil || f.Name == "Rlerror" {
+					res.Err = "racy setup: walk failed"
+					return res
+				}
+				if f.Tag == x.t || !c.Cross {
+					break
+				}
+			}
+		}
+	}
+	aName, aVals, err := prepare(s1, c.A, 10, c.Racy)
 	if err != nil {
 		res.Err = "prepare A: " + err.Error()
 		return res
 	}
-	bName, bVals, err := prepare(sB, c.B, 20)
+	bName, bVals, err := prepare(sB, c.B, 20, c.Racy)
 	if err != nil {
 		res.Err = "prepare B: " + err.Error()
 		return res
